@@ -95,15 +95,21 @@ def run_tlc(module, cfg, *, workers=16, timeout=1200, simulate=None, depth=None,
         e.update({k: str(v) for k, v in env.items()})
     res = TLCResult()
     t0 = time.time()
-    try:
-        p = subprocess.run(cmd, cwd=spec_dir, env=e, stdout=subprocess.PIPE,
-                           stderr=subprocess.STDOUT, timeout=timeout, text=True)
-    except subprocess.TimeoutExpired:
-        shutil.rmtree(meta, ignore_errors=True)
-        subprocess.run(['pkill', '-f', meta], check=False)
-        raise Machinery('TLC timeout after %ss on %s/%s' % (timeout, module, cfg))
-    finally:
-        shutil.rmtree(meta, ignore_errors=True)
+    for attempt in range(3):
+        os.makedirs(meta, exist_ok=True)
+        try:
+            p = subprocess.run(cmd, cwd=spec_dir, env=e, stdout=subprocess.PIPE,
+                               stderr=subprocess.STDOUT, timeout=timeout, text=True)
+        except subprocess.TimeoutExpired:
+            shutil.rmtree(meta, ignore_errors=True)
+            subprocess.run(['pkill', '-f', meta], check=False)
+            raise Machinery('TLC timeout after %ss on %s/%s' % (timeout, module, cfg))
+        finally:
+            shutil.rmtree(meta, ignore_errors=True)
+        if p.returncode not in (-9, 137):
+            break
+        # SIGKILL from outside (the kernel's OOM killer when many JVMs share the machine): not a result, run it again
+        time.sleep(20 * (attempt + 1))
     res.wall = time.time() - t0
     res.rc = p.returncode
     res.out = p.stdout
